@@ -297,4 +297,1067 @@ Proof.
   rewrite Hf. destruct (name_eqb c (c_id O C0)); [reflexivity | exact IH].
 Qed.
 
+Lemma find_map_col_none : forall (f : column -> column) cs c,
+  (forall C, c_id O (f C) = c_id O C) ->
+  (find_col O (map f cs) c = None <-> find_col O cs c = None).
+Proof.
+  intros f cs c Hf. rewrite find_map_col by exact Hf. destruct (find_col O cs c); cbn; split; congruence.
+Qed.
+
+Lemma nodup_names_find : forall cs C,
+  nodup_names (map (c_id O) cs) = true -> In C cs -> find_col O cs (c_id O C) = Some C.
+Proof.
+  induction cs as [|C0 cs IH]; intros C Hnd Hin; [contradiction|].
+  cbn in Hnd. apply andb_true_iff in Hnd. destruct Hnd as [Hn Hnd]. cbn.
+  destruct Hin as [->|Hin].
+  - rewrite name_eqb_refl. reflexivity.
+  - name_cases (c_id O C) (c_id O C0).
+    + exfalso. apply negb_true_iff in Hn. apply not_true_iff_false in Hn. apply Hn.
+      apply nmem_In. rewrite <- E. apply in_map. exact Hin.
+    + apply IH; assumption.
+Qed.
+
+Lemma find_col_In : forall cs c C, find_col O cs c = Some C -> In C cs.
+Proof.
+  induction cs as [|C0 cs IH]; intros c C H; cbn in H; [discriminate|].
+  destruct (name_eqb c (c_id O C0)).
+  - inversion H; subst. left. reflexivity.
+  - right. eapply IH. exact H.
+Qed.
+
+Lemma find_col_none_notin : forall cs c, find_col O cs c = None <-> ~ In c (map (c_id O) cs).
+Proof.
+  induction cs as [|C0 cs IH]; intros c; cbn.
+  - split; [intros _ [] | reflexivity].
+  - name_cases c (c_id O C0).
+    + split; [discriminate | intro H; exfalso; apply H; left; congruence].
+    + rewrite IH. split; [intros H1 [H2|H2]; [congruence | contradiction] | intros H1 H2; apply H1; right; exact H2].
+Qed.
+
+(* ------------------------------------------------------------------------------------------------ *)
+(* equivalence of documents: same tables, same column schema (as a map), same row-id sets, every cell
+   of every row equal up to encoding -- except the cells in X *)
+
+Definition cellset := name -> name -> Z -> Prop.
+Definition no_cells : cellset := fun _ _ _ => False.
+
+Definition col_rel (X : cellset) (t c : name) (rows : list Z) (C1 C2 : option column) : Prop :=
+  match C1, C2 with
+  | None, None => True
+  | Some C1, Some C2 =>
+      c_info O C1 = c_info O C2 /\
+      forall r, In r rows -> X t c r \/ venc O (col_get O C1 r) (col_get O C2 r) = true
+  | _, _ => False
+  end.
+
+Definition tab_rel (X : cellset) (t : name) (T1 T2 : table) : Prop :=
+  (forall r, In r (t_rows O T1) <-> In r (t_rows O T2)) /\
+  forall c, col_rel X t c (t_rows O T1) (find_col O (t_cols O T1) c) (find_col O (t_cols O T2) c).
+
+Definition otab_rel (X : cellset) (t : name) (T1 T2 : option table) : Prop :=
+  match T1, T2 with
+  | None, None => True
+  | Some T1, Some T2 => tab_rel X t T1 T2
+  | _, _ => False
+  end.
+
+Definition seq_ex (X : cellset) (s1 s2 : state) : Prop :=
+  forall t, otab_rel X t (find_table O s1 t) (find_table O s2 t).
+
+Definition seq (s1 s2 : state) : Prop := seq_ex no_cells s1 s2.
+
+Lemma col_rel_refl : forall X t c rows C, col_rel X t c rows C C.
+Proof.
+  intros X t c rows [C|]; cbn; [|exact I]. split; [reflexivity|]. intros r _. right. apply (venc_refl L).
+Qed.
+
+Lemma tab_rel_refl : forall X t T, tab_rel X t T T.
+Proof. intros X t T. split; [tauto|]. intro c. apply col_rel_refl. Qed.
+
+Lemma seq_ex_refl : forall X s, seq_ex X s s.
+Proof. intros X s t. destruct (find_table O s t); cbn; [apply tab_rel_refl | exact I]. Qed.
+
+Lemma col_rel_sym : forall X t c rows C1 C2, col_rel X t c rows C1 C2 -> col_rel X t c rows C2 C1.
+Proof.
+  intros X t c rows [C1|] [C2|]; cbn; try tauto. intros [Hi Hc]. split; [congruence|].
+  intros r Hr. destruct (Hc r Hr) as [H|H]; [left; exact H | right; apply (venc_sym L); exact H].
+Qed.
+
+Lemma tab_rel_sym : forall X t T1 T2, tab_rel X t T1 T2 -> tab_rel X t T2 T1.
+Proof.
+  intros X t T1 T2 [Hr Hc]. split; [intro r; symmetry; apply Hr|].
+  intro c. specialize (Hc c). apply col_rel_sym in Hc.
+  destruct (find_col O (t_cols O T2) c), (find_col O (t_cols O T1) c); cbn in *; try tauto.
+  destruct Hc as [Hi Hc]. split; [exact Hi|]. intros r Hin. apply Hc. apply Hr. exact Hin.
+Qed.
+
+Lemma seq_ex_sym : forall X s1 s2, seq_ex X s1 s2 -> seq_ex X s2 s1.
+Proof.
+  intros X s1 s2 H t. specialize (H t).
+  destruct (find_table O s1 t), (find_table O s2 t); cbn in *; try tauto. apply tab_rel_sym. exact H.
+Qed.
+
+Lemma col_rel_trans : forall X Y t c rows C1 C2 C3,
+  col_rel X t c rows C1 C2 -> col_rel Y t c rows C2 C3 ->
+  col_rel (fun t c r => X t c r \/ Y t c r) t c rows C1 C3.
+Proof.
+  intros X Y t c rows [C1|] [C2|] [C3|]; cbn; try tauto.
+  intros [Hi1 Hc1] [Hi2 Hc2]. split; [congruence|].
+  intros r Hr. destruct (Hc1 r Hr) as [H1|H1]; [left; left; exact H1|].
+  destruct (Hc2 r Hr) as [H2|H2]; [left; right; exact H2|].
+  right. eapply (venc_trans L); eassumption.
+Qed.
+
+Lemma tab_rel_trans : forall X Y t T1 T2 T3,
+  tab_rel X t T1 T2 -> tab_rel Y t T2 T3 -> tab_rel (fun t c r => X t c r \/ Y t c r) t T1 T3.
+Proof.
+  intros X Y t T1 T2 T3 [Hr1 Hc1] [Hr2 Hc2]. split.
+  - intro r. rewrite Hr1. apply Hr2.
+  - intro c. eapply col_rel_trans; [apply Hc1|].
+    specialize (Hc2 c).
+    destruct (find_col O (t_cols O T2) c), (find_col O (t_cols O T3) c); cbn in *; try tauto.
+    destruct Hc2 as [Hi Hc]. split; [exact Hi|]. intros r Hin. apply Hc. apply Hr1. exact Hin.
+Qed.
+
+Lemma seq_ex_trans : forall X Y s1 s2 s3,
+  seq_ex X s1 s2 -> seq_ex Y s2 s3 -> seq_ex (fun t c r => X t c r \/ Y t c r) s1 s3.
+Proof.
+  intros X Y s1 s2 s3 H1 H2 t. specialize (H1 t). specialize (H2 t).
+  destruct (find_table O s1 t), (find_table O s2 t), (find_table O s3 t); cbn in *; try tauto.
+  eapply tab_rel_trans; eassumption.
+Qed.
+
+Lemma col_rel_weaken : forall (X Y : cellset) t c rows C1 C2,
+  (forall r, X t c r -> Y t c r) -> col_rel X t c rows C1 C2 -> col_rel Y t c rows C1 C2.
+Proof.
+  intros X Y t c rows [C1|] [C2|] HXY; cbn; try tauto.
+  intros [Hi Hc]. split; [exact Hi|]. intros r Hr. destruct (Hc r Hr); [left; apply HXY; assumption | right; assumption].
+Qed.
+
+Lemma tab_rel_weaken : forall (X Y : cellset) t T1 T2,
+  (forall c r, X t c r -> Y t c r) -> tab_rel X t T1 T2 -> tab_rel Y t T1 T2.
+Proof.
+  intros X Y t T1 T2 HXY [Hr Hc]. split; [exact Hr|]. intro c. eapply col_rel_weaken; [|apply Hc]. intros r. apply HXY.
+Qed.
+
+Lemma seq_ex_weaken : forall (X Y : cellset) s1 s2,
+  (forall t c r, X t c r -> Y t c r) -> seq_ex X s1 s2 -> seq_ex Y s1 s2.
+Proof.
+  intros X Y s1 s2 HXY H t. specialize (H t).
+  destruct (find_table O s1 t), (find_table O s2 t); cbn in *; try tauto.
+  eapply tab_rel_weaken; [|exact H]. intros c r. apply HXY.
+Qed.
+
+Lemma seq_trans : forall s1 s2 s3, seq s1 s2 -> seq s2 s3 -> seq s1 s3.
+Proof.
+  intros s1 s2 s3 H1 H2. eapply seq_ex_weaken; [|eapply seq_ex_trans; eassumption].
+  unfold no_cells. tauto.
+Qed.
+
+
+(* ------------------------------------------------------------------------------------------------ *)
+(* well-formed documents: column ids of a table are distinct, none is "id", and every cell of an existing
+   row holds a value that Column.set leaves alone (up to encoding) *)
+
+Definition col_normal (C : column) (rows : list Z) : Prop :=
+  forall r, In r rows -> venc O (vnorm O (ci_type (c_info O C)) (col_get O C r)) (col_get O C r) = true.
+
+Definition wf_table (T : table) : Prop :=
+  nodup_names (map (c_id O) (t_cols O T)) = true /\
+  nmem id_name (map (c_id O) (t_cols O T)) = false /\
+  forall c C, find_col O (t_cols O T) c = Some C -> col_normal C (t_rows O T).
+
+Definition wf_state (s : state) : Prop := forall t T, find_table O s t = Some T -> wf_table T.
+
+(* ------------------------------------------------------------------------------------------------ *)
+(* column dictionaries *)
+
+Fixpoint cols_get (cols : colvals O) (c : name) : option (list V) :=
+  match cols with
+  | [] => None
+  | (c', vs) :: rest => if name_eqb c c' then Some vs else cols_get rest c
+  end.
+
+Lemma cols_get_none : forall cols c, cols_get cols c = None <-> ~ In c (map fst cols).
+Proof.
+  induction cols as [|[c' vs] rest IH]; intro c; cbn.
+  - split; [intros _ [] | reflexivity].
+  - name_cases c c'.
+    + split; [discriminate | intro H; exfalso; apply H; left; congruence].
+    + rewrite IH. split; [intros H1 [H2|H2]; [congruence | contradiction] | intros H1 H2; apply H1; right; exact H2].
+Qed.
+
+Lemma put_col_ids : forall cs c C', c_id O C' = c -> map (c_id O) (put_col O cs c C') = map (c_id O) cs.
+Proof.
+  induction cs as [|C0 cs IH]; intros c C' Hid; cbn; [reflexivity|].
+  name_cases c (c_id O C0).
+  - cbn. congruence.
+  - cbn. rewrite IH by exact Hid. reflexivity.
+Qed.
+
+(* the cell of column C, row r after `set_columns rows cols` *)
+Definition cell_after (rows : list Z) (cols : colvals O) (C : column) (base : Z -> V) (r : Z) : V :=
+  match cols_get cols (c_id O C) with
+  | Some vals => match set_val rows vals r with
+                 | Some v => vnorm O (ci_type (c_info O C)) v
+                 | None => base r
+                 end
+  | None => base r
+  end.
+
+Lemma set_columns_spec : forall cols cs rows cs',
+  nodup_names (map fst cols) = true ->
+  set_columns O cs rows cols = Ok cs' ->
+  map (c_id O) cs' = map (c_id O) cs /\
+  forall c, match find_col O cs c with
+            | None => find_col O cs' c = None
+            | Some C => exists C', find_col O cs' c = Some C' /\ c_info O C' = c_info O C /\
+                                   forall r, col_get O C' r = cell_after rows cols C (col_get O C) r
+            end.
+Proof.
+  induction cols as [|[c0 vals] rest IH]; intros cs rows cs' Hnd H; cbn in H.
+  - assert (cs' = cs) by congruence. subst cs'. split; [reflexivity|]. intro c.
+    destruct (find_col O cs c) as [C|] eqn:E; [|reflexivity].
+    exists C. repeat split.
+  - destruct (find_col O cs c0) as [C0|] eqn:E0; [|discriminate].
+    cbn in Hnd. apply andb_true_iff in Hnd. destruct Hnd as [Hn Hnd].
+    pose proof (find_col_id _ _ _ E0) as Hid0.
+    specialize (IH _ _ _ Hnd H). destruct IH as [Hids IH].
+    split.
+    { rewrite Hids. apply put_col_ids. rewrite col_set_many_id. exact Hid0. }
+    intro c. specialize (IH c).
+    rewrite find_put_col in IH by (rewrite col_set_many_id; exact Hid0).
+    name_cases c c0.
+    + subst c. rewrite E0 in *. destruct IH as [C' [Hf [Hi Hc]]]. exists C'. split; [exact Hf|].
+      split; [rewrite Hi; apply col_set_many_info|].
+      intro r. rewrite Hc. unfold cell_after. rewrite col_set_many_id, col_set_many_info.
+      rewrite Hid0. cbn. rewrite name_eqb_refl.
+      assert (cols_get rest c0 = None) as ->.
+      { apply cols_get_none. intro Hin. apply nmem_In in Hin. rewrite Hin in Hn. discriminate. }
+      apply col_get_set_many.
+    + destruct (find_col O cs c) as [C|] eqn:Ec; [|exact IH].
+      destruct IH as [C' [Hf [Hi Hc]]]. exists C'. repeat split; try assumption.
+      intro r. rewrite Hc. unfold cell_after. cbn.
+      rewrite (find_col_id _ _ _ Ec). rewrite E. reflexivity.
+Qed.
+
+Lemma set_columns_ok_iff : forall cols cs rows,
+  (exists cs', set_columns O cs rows cols = Ok cs') <-> (forall c, In c (map fst cols) -> find_col O cs c <> None).
+Proof.
+  induction cols as [|[c0 vals] rest IH]; intros cs rows; cbn.
+  - split; [intros _ c [] | intros _; eauto].
+  - destruct (find_col O cs c0) as [C0|] eqn:E0.
+    + rewrite IH. pose proof (find_col_id _ _ _ E0) as Hid0. split.
+      * intros H c [Hc|Hc]; [subst; congruence|].
+        specialize (H c Hc). rewrite find_put_col in H by (rewrite col_set_many_id; exact Hid0).
+        name_cases c c0; [subst; congruence | exact H].
+      * intros H c Hc. rewrite find_put_col by (rewrite col_set_many_id; exact Hid0).
+        name_cases c c0; [rewrite E0; discriminate | apply H; right; exact Hc].
+    + split; [intros [cs' H]; discriminate | intro H; exfalso; apply (H c0); [left; reflexivity | exact E0]].
+Qed.
+
+Lemma old_values_spec : forall cols cs rows ov,
+  old_values O cs rows cols = Ok ov ->
+  map fst ov = map fst cols /\
+  forall c, cols_get ov c =
+            match cols_get cols c with
+            | None => None
+            | Some _ => match find_col O cs c with
+                        | Some C => Some (map (col_get O C) rows)
+                        | None => None
+                        end
+            end.
+Proof.
+  induction cols as [|[c0 vals] rest IH]; intros cs rows ov H; cbn in H.
+  - inversion H; subst. split; reflexivity.
+  - destruct (find_col O cs c0) as [C0|] eqn:E0; [|discriminate].
+    destruct (old_values O cs rows rest) as [tl|] eqn:E1; cbn in H; [|discriminate].
+    inversion H; subst. destruct (IH _ _ _ E1) as [Hk Hg]. split; [cbn; congruence|].
+    intro c. cbn. name_cases c c0; [subst; rewrite E0; reflexivity | apply Hg].
+Qed.
+
+Lemma old_values_ok : forall cols cs rows,
+  (forall c, In c (map fst cols) -> find_col O cs c <> None) -> exists ov, old_values O cs rows cols = Ok ov.
+Proof.
+  induction cols as [|[c0 vals] rest IH]; intros cs rows H; cbn.
+  - eauto.
+  - destruct (find_col O cs c0) as [C0|] eqn:E0.
+    + destruct (IH cs rows) as [ov Hov]; [intros c Hc; apply H; right; exact Hc|]. rewrite Hov. cbn. eauto.
+    + exfalso. apply (H c0); [left; reflexivity | exact E0].
+Qed.
+
+Lemma old_values_ok_inv : forall cols cs rows ov,
+  old_values O cs rows cols = Ok ov -> forall c, In c (map fst cols) -> find_col O cs c <> None.
+Proof.
+  induction cols as [|[c0 vals] rest IH]; intros cs rows ov H c Hc; cbn in *; [contradiction|].
+  destruct (find_col O cs c0) as [C0|] eqn:E0; [|discriminate].
+  destruct (old_values O cs rows rest) as [tl|] eqn:E1; cbn in H; [|discriminate].
+  destruct Hc as [<-|Hc]; [congruence | eapply IH; eassumption].
+Qed.
+
+(* Engine.add_records *)
+Definition add_base (rows : list Z) (C : column) (r : Z) : V :=
+  if zmem r rows then vnorm O (ci_type (c_info O C)) (col_default O C) else col_get O C r.
+
+Lemma add_records_spec : forall T rows cols T',
+  nodup_names (map fst cols) = true ->
+  add_records O T rows cols = Ok T' ->
+  t_id O T' = t_id O T /\
+  (forall r, In r (t_rows O T') <-> In r rows \/ In r (t_rows O T)) /\
+  map (c_id O) (t_cols O T') = map (c_id O) (t_cols O T) /\
+  forall c, match find_col O (t_cols O T) c with
+            | None => find_col O (t_cols O T') c = None
+            | Some C => exists C', find_col O (t_cols O T') c = Some C' /\ c_info O C' = c_info O C /\
+                                   forall r, col_get O C' r = cell_after rows cols C (add_base rows C) r
+            end.
+Proof.
+  intros T rows cols T' Hnd H. unfold add_records in H.
+  destruct (set_columns O (map (fun C => col_unset_many O C rows) (t_cols O T)) rows cols) as [cs|] eqn:E; cbn in H; [|discriminate].
+  inversion H; subst; clear H. cbn.
+  destruct (set_columns_spec _ _ _ _ Hnd E) as [Hids Hc].
+  split; [reflexivity|]. split; [intro r; apply fold_zinsert_In|].
+  split.
+  { rewrite Hids. rewrite map_map. apply map_ext. intro C. apply col_unset_many_id. }
+  intro c. specialize (Hc c).
+  rewrite find_map_col in Hc by (intro; apply col_unset_many_id).
+  destruct (find_col O (t_cols O T) c) as [C|] eqn:Ec; cbn in Hc; [|exact Hc].
+  destruct Hc as [C' [Hf [Hi Hg]]]. exists C'. split; [exact Hf|]. split; [rewrite Hi; apply col_unset_many_info|].
+  intro r. rewrite Hg. unfold cell_after. rewrite col_unset_many_id, col_unset_many_info.
+  unfold add_base. rewrite col_get_unset_many. reflexivity.
+Qed.
+
+Lemma add_records_ok_iff : forall T rows cols,
+  (exists T', add_records O T rows cols = Ok T') <->
+  (forall c, In c (map fst cols) -> find_col O (t_cols O T) c <> None).
+Proof.
+  intros T rows cols. unfold add_records.
+  pose proof (set_columns_ok_iff cols (map (fun C => col_unset_many O C rows) (t_cols O T)) rows) as Hs.
+  split.
+  - intros [T' H] c Hc.
+    destruct (set_columns O (map (fun C => col_unset_many O C rows) (t_cols O T)) rows cols) as [cs|] eqn:E; cbn in H; [|discriminate].
+    pose proof (proj1 Hs (ex_intro _ cs eq_refl) c Hc) as Hn. intro Hnone. apply Hn.
+    apply find_map_col_none; [intro; apply col_unset_many_id | exact Hnone].
+  - intro H. destruct (proj2 Hs) as [cs Hcs].
+    + intros c Hc Hnone. apply (H c Hc). eapply find_map_col_none; [|exact Hnone]. intro; apply col_unset_many_id.
+    + rewrite Hcs. cbn. eauto.
+Qed.
+
+
+(* ------------------------------------------------------------------------------------------------ *)
+(* each doc action followed by the undo actions it appended (walked in reverse, as ApplyUndoActions does)
+   gives back the document -- except the cells in `lossy a s`, which the engine restores through the
+   calc summary (formula column removed), by recalculation (ReplaceTableData) or by the conversion delta of
+   doModifyColumn (type change) *)
+
+Definition lossy (a : action) (s : state) : cellset :=
+  match a with
+  | RemoveColumn _ t c =>
+      fun t' c' _ => t' = t /\ c' = c /\
+        exists T C, find_table O s t = Some T /\ find_col O (t_cols O T) c = Some C /\ ci_isformula (c_info O C) = true
+  | ReplaceTableData _ t _ _ =>
+      fun t' c' _ => t' = t /\
+        exists T C, find_table O s t = Some T /\ find_col O (t_cols O T) c' = Some C /\ ci_isformula (c_info O C) = true
+  | ModifyColumn _ t c m =>
+      fun t' c' _ => t' = t /\ c' = c /\
+        exists T C, find_table O s t = Some T /\ find_col O (t_cols O T) c = Some C /\
+                    ci_type (apply_modinfo m (c_info O C)) <> ci_type (c_info O C)
+  | _ => no_cells
+  end.
+
+Definition undo_ok (a : action) (s : state) : Prop :=
+  forall s' u ops, apply_doc O a s = Ok (s', (u, ops)) ->
+  exists s'', replay_doc O (rev u) s' = Ok s'' /\ seq_ex (lossy a s) s'' s.
+
+Lemma seq_ex_put2 : forall X s t T T1 T2,
+  find_table O s t = Some T -> t_id O T1 = t -> t_id O T2 = t -> tab_rel X t T2 T ->
+  seq_ex X (put_table O (put_table O s t T1) t T2) s.
+Proof.
+  intros X s t T T1 T2 Hf H1 H2 Hr t0. rewrite !find_put_table by assumption.
+  name_cases t0 t.
+  - subst t0. rewrite name_eqb_refl, Hf. cbn. exact Hr.
+  - destruct (find_table O s t0); cbn; [apply tab_rel_refl | exact I].
+Qed.
+
+Lemma seq_ex_put1 : forall X s t T T1,
+  find_table O s t = Some T -> t_id O T1 = t -> tab_rel X t T1 T -> seq_ex X (put_table O s t T1) s.
+Proof.
+  intros X s t T T1 Hf H1 Hr t0. rewrite find_put_table by exact H1.
+  name_cases t0 t.
+  - subst t0. rewrite Hf. cbn. exact Hr.
+  - destruct (find_table O s t0); cbn; [apply tab_rel_refl | exact I].
+Qed.
+
+Lemma undo_AddTable : forall s t cols, undo_ok (AddTable O t cols) s.
+Proof.
+  intros s t cols s' u ops H. cbn in H.
+  destruct (find_table O s t) eqn:Ef; [discriminate|].
+  destruct (negb (nodup_names (map fst cols)) || nmem id_name (map fst cols)); [discriminate|].
+  inversion H; subst; clear H. cbn.
+  rewrite find_app_table, Ef. cbn. rewrite name_eqb_refl. cbn.
+  eexists. split; [reflexivity|].
+  intro t0. rewrite find_drop_table, find_app_table. name_cases t0 t.
+  - subst. rewrite Ef. exact I.
+  - cbn. rewrite E. destruct (find_table O s t0); cbn; [apply tab_rel_refl | exact I].
+Qed.
+
+Lemma undo_RenameTable : forall s old new, undo_ok (RenameTable O old new) s.
+Proof.
+  intros s old new s' u ops H. cbn in H.
+  destruct (find_table O s old) as [T|] eqn:Eo; [|discriminate].
+  destruct (find_table O s new) eqn:En; [discriminate|].
+  inversion H; subst; clear H. cbn.
+  assert (Hne : old <> new) by (intro; subst; congruence).
+  rewrite find_app_table, find_drop_table. cbn.
+  assert (name_eqb new old = false) as Eno by (apply name_eqb_neq; congruence).
+  rewrite Eno, En, name_eqb_refl.
+  rewrite find_app_table, find_drop_table, name_eqb_refl. cbn.
+  assert (name_eqb old new = false) as Eon by (apply name_eqb_neq; congruence).
+  rewrite Eon. cbn.
+  eexists. split; [reflexivity|].
+  intro t0. rewrite find_app_table, find_drop_table, find_app_table, find_drop_table. cbn.
+  name_cases t0 new.
+  - subst. rewrite Eno, En. exact I.
+  - name_cases t0 old.
+    + subst. rewrite Eo. cbn. split; cbn; [tauto|]. intro c. apply col_rel_refl.
+    + destruct (find_table O s t0); cbn; [apply tab_rel_refl | exact I].
+Qed.
+
+Lemma find_col_mk_infos : forall cs c,
+  find_col O (map (fun ci => mkCol O (fst ci) (snd ci) []) (map (col_to_info O) cs)) c =
+  option_map (fun C => mkCol O (c_id O C) (c_info O C) []) (find_col O cs c).
+Proof.
+  induction cs as [|C0 cs IH]; intro c; cbn; [reflexivity|].
+  destruct (name_eqb c (c_id O C0)); [reflexivity | apply IH].
+Qed.
+
+Lemma colvals_ok_data : forall cs rows (f : column -> list V),
+  nodup_names (map (c_id O) cs) = true -> nmem id_name (map (c_id O) cs) = false ->
+  (forall C, length (f C) = length rows) ->
+  colvals_ok O rows (map (fun C => (c_id O C, f C)) cs) = true.
+Proof.
+  intros cs rows f Hnd Hid Hl. unfold colvals_ok.
+  assert (map fst (map (fun C => (c_id O C, f C)) cs) = map (c_id O) cs) as ->
+    by (rewrite map_map; apply map_ext; reflexivity).
+  rewrite Hnd, Hid. cbn. rewrite andb_true_r.
+  apply forallb_forall. intros kv Hin. apply in_map_iff in Hin. destruct Hin as [C [<- _]]. cbn.
+  apply Nat.eqb_eq. apply Hl.
+Qed.
+
+Lemma cols_get_data : forall cs (f : column -> list V) c,
+  cols_get (map (fun C => (c_id O C, f C)) cs) c = option_map f (find_col O cs c).
+Proof.
+  induction cs as [|C0 cs IH]; intros f c; cbn; [reflexivity|].
+  destruct (name_eqb c (c_id O C0)); [reflexivity | apply IH].
+Qed.
+
+Lemma none_in_nil : forall rows, none_in rows [] = true.
+Proof. intro rows. unfold none_in. apply forallb_forall. intros; reflexivity. Qed.
+
+Lemma match_nonnil : forall (A B : Type) (l : list A) (x y : B),
+  l <> [] -> match l with [] => x | _ :: _ => y end = y.
+Proof. intros A B [|a l] x y H; [contradiction | reflexivity]. Qed.
+
+Lemma undo_RemoveTable : forall s t, wf_state s -> undo_ok (RemoveTable O t) s.
+Proof.
+  intros s t Hwf s' u ops H. cbn in H.
+  destruct (find_table O s t) as [T|] eqn:Ef; [|discriminate].
+  destruct (Hwf _ _ Ef) as [Hnd [Hnoid Hnorm]].
+  pose proof (find_table_id _ _ _ Ef) as Hid.
+  assert (Hadd : apply_doc O (AddTable O t (map (col_to_info O) (t_cols O T))) (drop_table O s t) =
+          Ok (drop_table O s t ++ [mkTab O t [] (map (fun ci => mkCol O (fst ci) (snd ci) []) (map (col_to_info O) (t_cols O T)))],
+              ([RemoveTable O t], [SRenameTable O None t]))).
+  { cbn. rewrite find_drop_table, name_eqb_refl.
+    assert (map fst (map (col_to_info O) (t_cols O T)) = map (c_id O) (t_cols O T)) as ->
+      by (rewrite map_map; apply map_ext; reflexivity).
+    rewrite Hnd, Hnoid. reflexivity. }
+  set (Tn := mkTab O t [] (map (fun ci => mkCol O (fst ci) (snd ci) []) (map (col_to_info O) (t_cols O T)))) in *.
+  set (data := map (fun C => (c_id O C, map (col_get O C) (t_rows O T))) (t_cols O T)) in *.
+  assert (Hseq0 : forall T', t_id O T' = t -> tab_rel no_cells t T' T ->
+                  seq_ex no_cells (put_table O (drop_table O s t ++ [Tn]) t T') s).
+  { intros T' Hid' Hrel t0. rewrite find_put_table by exact Hid'.
+    rewrite !find_app_table, !find_drop_table. unfold Tn. cbn [t_id]. name_cases t0 t.
+    - subst t0. rewrite !name_eqb_refl. rewrite Ef. exact Hrel.
+    - destruct (find_table O s t0); cbn; [apply tab_rel_refl | exact I]. }
+  destruct (list_eq_dec Z.eq_dec (t_rows O T) []) as [Hnil|Hne].
+  - rewrite Hnil in H. inversion H; subst s' u ops; clear H. cbn [rev app replay_doc]. rewrite Hadd. cbn [bind fst].
+    eexists. split; [reflexivity|].
+    intro t0. rewrite find_app_table, find_drop_table. name_cases t0 t.
+    + subst t0. unfold Tn. cbn [t_id]. rewrite name_eqb_refl, Ef. cbn [otab_rel]. split; [intro r; cbn; rewrite Hnil; tauto|]. cbn [t_cols t_rows].
+      intro c. rewrite find_col_mk_infos. destruct (find_col O (t_cols O T) c); cbn; [|exact I].
+      split; [reflexivity|]. intros r [].
+    + unfold Tn. cbn [t_id]. rewrite E. destruct (find_table O s t0); cbn; [apply tab_rel_refl | exact I].
+  - rewrite match_nonnil in H by exact Hne. inversion H; subst s' u ops; clear H.
+    cbn [rev app replay_doc]. rewrite Hadd. cbn [bind fst].
+    assert (Hok : colvals_ok O (t_rows O T) data = true).
+    { apply colvals_ok_data; try assumption. intro C. apply map_length. }
+    assert (Hndk : nodup_names (map fst data) = true).
+    { unfold data. rewrite <- Hnd. f_equal. rewrite map_map. apply map_ext. reflexivity. }
+    destruct (proj2 (add_records_ok_iff Tn (t_rows O T) data)) as [T' HT'].
+    { intros c Hc. unfold data in Hc. rewrite map_map in Hc. cbn in Hc.
+      assert (Hc' : In c (map (c_id O) (t_cols O T))) by (erewrite map_ext; [exact Hc | reflexivity]).
+      unfold Tn. cbn [t_cols]. rewrite find_col_mk_infos.
+      destruct (find_col O (t_cols O T) c) eqn:E; [cbn; discriminate|].
+      apply find_col_none_notin in E. contradiction. }
+    destruct (add_records_spec _ _ _ _ Hndk HT') as [Hid' [Hrows [_ Hcols]]].
+    assert (Hstep : apply_doc O (BulkAddRecord O t (t_rows O T) data) (drop_table O s t ++ [Tn]) =
+                    Ok (put_table O (drop_table O s t ++ [Tn]) t T',
+                        ([BulkRemoveRecord O t (t_rows O T)], [SAddRecords O t (t_rows O T)]))).
+    { unfold apply_doc. rewrite find_app_table, find_drop_table, name_eqb_refl.
+      unfold Tn at 1. cbn [t_id]. rewrite name_eqb_refl.
+      rewrite Hok. rewrite (match_nonnil _ _ _ true false Hne). cbn [negb orb].
+      unfold Tn at 1. cbn [t_rows]. rewrite none_in_nil. cbn [negb]. rewrite HT'. reflexivity. }
+    rewrite Hstep. cbn [bind fst].
+    eexists. split; [reflexivity|].
+    eapply seq_ex_weaken; [|apply Hseq0].
+    + intros ? ? ? [].
+    + rewrite Hid'. reflexivity.
+    + split.
+      * intro r. rewrite Hrows. unfold Tn. cbn. tauto.
+      * intro c. specialize (Hcols c). unfold Tn in Hcols. cbn [t_cols] in Hcols. rewrite find_col_mk_infos in Hcols.
+        destruct (find_col O (t_cols O T) c) as [C|] eqn:Ec; cbn in Hcols.
+        -- destruct Hcols as [C' [Hf' [Hi' Hg']]]. rewrite Hf'. cbn. split; [exact Hi'|].
+           intros r Hr. right. rewrite Hg'. unfold cell_after. cbn [c_id c_info].
+           unfold data. rewrite cols_get_data. rewrite (find_col_id _ _ _ Ec), Ec. cbn.
+           rewrite set_val_map. apply Hrows in Hr. unfold Tn in Hr. cbn in Hr. destruct Hr as [Hr|[]].
+           rewrite (proj2 (zmem_In _ _) Hr). apply (Hnorm _ _ Ec). exact Hr.
+        -- rewrite Hcols. exact I.
+Qed.
+
+
+Lemma find_put_same : forall s t T T1,
+  find_table O s t = Some T -> t_id O T1 = t -> find_table O (put_table O s t T1) t = Some T1.
+Proof. intros s t T T1 Hf Hid. rewrite find_put_table by exact Hid. rewrite name_eqb_refl, Hf. reflexivity. Qed.
+
+Lemma has_column_false : forall T c,
+  has_column O T c = false <-> c <> id_name /\ find_col O (t_cols O T) c = None.
+Proof.
+  intros T c. unfold has_column. name_cases c id_name; cbn.
+  - split; [discriminate | intros [Hc _]; contradiction].
+  - destruct (find_col O (t_cols O T) c); split; try discriminate; try tauto. intros [_ Hc]. discriminate.
+Qed.
+
+Lemma wf_col_not_id : forall T c C, wf_table T -> find_col O (t_cols O T) c = Some C -> c <> id_name.
+Proof.
+  intros T c C [_ [Hnoid _]] Hf Heq. subst c.
+  assert (nmem id_name (map (c_id O) (t_cols O T)) = true); [|congruence].
+  apply nmem_In. rewrite <- (find_col_id _ _ _ Hf). apply in_map. eapply find_col_In. exact Hf.
+Qed.
+
+Lemma apply_RemoveColumn_state : forall s t c T C,
+  find_table O s t = Some T -> find_col O (t_cols O T) c = Some C ->
+  exists u ops, apply_doc O (RemoveColumn O t c) s =
+                Ok (put_table O s t (mkTab O (t_id O T) (t_rows O T) (drop_col O (t_cols O T) c)), (u, ops)).
+Proof.
+  intros s t c T C Hf Hc. unfold apply_doc. rewrite Hf, Hc.
+  destruct (filter _ _); [eauto|]. destruct (ci_isformula (c_info O C)); eauto.
+Qed.
+
+Lemma undo_AddColumn : forall s t c info, undo_ok (AddColumn O t c info) s.
+Proof.
+  intros s t c info s' u ops H. cbn in H.
+  destruct (find_table O s t) as [T|] eqn:Ef; [|discriminate].
+  destruct (has_column O T c) eqn:Eh; [discriminate|].
+  apply has_column_false in Eh. destruct Eh as [Hnid Hnc].
+  pose proof (find_table_id _ _ _ Ef) as Hid.
+  inversion H; subst s' u ops; clear H. cbn [rev app replay_doc].
+  set (T1 := mkTab O (t_id O T) (t_rows O T) (t_cols O T ++ [mkCol O c info []])).
+  assert (Hf1 : find_table O (put_table O s t T1) t = Some T1) by (eapply find_put_same; eassumption).
+  assert (Hc1 : find_col O (t_cols O T1) c = Some (mkCol O c info [])).
+  { unfold T1. cbn [t_cols]. rewrite find_app_col, Hnc. cbn [c_id]. rewrite name_eqb_refl. reflexivity. }
+  destruct (apply_RemoveColumn_state _ _ _ _ _ Hf1 Hc1) as [u' [ops' Hstep]].
+  rewrite Hstep. cbn [bind fst].
+  eexists. split; [reflexivity|].
+  eapply seq_ex_put2; try eassumption; try reflexivity.
+  unfold T1. cbn [t_id t_rows t_cols]. split; [cbn; tauto|].
+  intro c0. cbn [t_cols t_rows]. rewrite find_drop_col, find_app_col. cbn [c_id].
+  name_cases c0 c.
+  - subst c0. rewrite Hnc. exact I.
+  - destruct (find_col O (t_cols O T) c0); cbn; [|exact I].
+    split; [reflexivity|]. intros r _. right. apply (venc_refl L).
+Qed.
+
+Lemma undo_RenameColumn : forall s t old new, wf_state s -> undo_ok (RenameColumn O t old new) s.
+Proof.
+  intros s t old new Hwf s' u ops H. cbn in H.
+  destruct (find_table O s t) as [T|] eqn:Ef; [|discriminate].
+  destruct (find_col O (t_cols O T) old) as [C|] eqn:Ec; [|discriminate].
+  destruct (has_column O T new) eqn:Eh; [discriminate|].
+  apply has_column_false in Eh. destruct Eh as [Hnid Hnc].
+  pose proof (find_table_id _ _ _ Ef) as Hid.
+  pose proof (wf_col_not_id _ _ _ (Hwf _ _ Ef) Ec) as Hoid.
+  assert (Hne : old <> new) by (intro; subst; congruence).
+  assert (Eon : name_eqb old new = false) by (apply name_eqb_neq; exact Hne).
+  assert (Eno : name_eqb new old = false) by (apply name_eqb_neq; congruence).
+  inversion H; subst s' u ops; clear H. cbn [rev app replay_doc].
+  set (N := mkCol O new (c_info O C) (c_data O C)).
+  set (T1 := mkTab O (t_id O T) (t_rows O T) (drop_col O (t_cols O T) old ++ [N])).
+  assert (Hf1 : find_table O (put_table O s t T1) t = Some T1) by (eapply find_put_same; eassumption).
+  assert (Hstep : apply_doc O (RenameColumn O t new old) (put_table O s t T1) =
+          Ok (put_table O (put_table O s t T1) t
+                (mkTab O (t_id O T) (t_rows O T) (drop_col O (t_cols O T1) new ++ [mkCol O old (c_info O C) (c_data O C)])),
+              ([RenameColumn O t old new], [SRenameColumn O t (Some new) old]))).
+  { unfold apply_doc. rewrite Hf1.
+    assert (find_col O (t_cols O T1) new = Some N) as ->.
+    { unfold T1. cbn [t_cols]. rewrite find_app_col, find_drop_col, Eno, Hnc. unfold N. cbn [c_id].
+      rewrite name_eqb_refl. reflexivity. }
+    assert (has_column O T1 old = false) as ->.
+    { apply has_column_false. split; [exact Hoid|]. unfold T1. cbn [t_cols].
+      rewrite find_app_col, find_drop_col, name_eqb_refl. unfold N. cbn [c_id]. rewrite Eon. reflexivity. }
+    reflexivity. }
+  rewrite Hstep. cbn [bind fst].
+  eexists. split; [reflexivity|].
+  eapply seq_ex_put2; try eassumption; try reflexivity.
+  split; [cbn; tauto|].
+  intro c0. unfold T1. cbn [t_cols t_rows].
+  rewrite find_app_col, find_drop_col, find_app_col, find_drop_col. unfold N. cbn [c_id].
+  name_cases c0 new.
+  - subst c0. rewrite Eno, Hnc. exact I.
+  - name_cases c0 old.
+    + subst c0. rewrite Ec. cbn. split; [reflexivity|]. intros r _. right.
+      unfold col_get, col_default. cbn. apply (venc_refl L).
+    + destruct (find_col O (t_cols O T) c0); cbn; [|exact I].
+      split; [reflexivity|]. intros r _. right. apply (venc_refl L).
+Qed.
+
+
+Lemma oname_eqb_eq : forall a b, oname_eqb a b = true <-> a = b.
+Proof.
+  intros [a|] [b|]; cbn; split; intro H; try congruence; try discriminate.
+  - apply name_eqb_eq in H. congruence.
+  - inversion H. apply name_eqb_refl.
+Qed.
+
+Lemma colinfo_eqb_eq : forall a b, colinfo_eqb a b = true <-> a = b.
+Proof.
+  intros [t1 f1 x1 r1] [t2 f2 x2 r2]. unfold colinfo_eqb. cbn. split.
+  - intro H. repeat (apply andb_true_iff in H; destruct H as [H ?]).
+    apply name_eqb_eq in H. apply Bool.eqb_prop in H2. apply name_eqb_eq in H1. apply oname_eqb_eq in H0. congruence.
+  - intro H. inversion H; subst. rewrite !name_eqb_refl, Bool.eqb_reflx. cbn. apply oname_eqb_eq. reflexivity.
+Qed.
+
+Lemma undo_modinfo_restores : forall m old, apply_modinfo (undo_modinfo m old) (apply_modinfo m old) = old.
+Proof.
+  intros [mt mf mx mr] [t f x r]. unfold apply_modinfo, undo_modinfo. cbn.
+  destruct mt, mf, mx, mr; reflexivity.
+Qed.
+
+Lemma filter_pairs : forall (f : Z -> V) (P : Z * V -> bool) rows,
+  let uv := filter P (map (fun r => (r, f r)) rows) in
+  map snd uv = map f (map fst uv) /\
+  (forall r, In r (map fst uv) -> In r rows) /\
+  (forall r, In r rows -> In r (map fst uv) \/ P (r, f r) = false).
+Proof.
+  intros f P rows. induction rows as [|r0 rows IH]; cbn.
+  - repeat split; try tauto.
+  - destruct IH as [H1 [H2 H3]]. destruct (P (r0, f r0)) eqn:EP; cbn.
+    + split; [f_equal; exact H1|]. split.
+      * intros r [Hr|Hr]; [left; exact Hr | right; apply H2; exact Hr].
+      * intros r [Hr|Hr]; [left; left; exact Hr|]. destruct (H3 r Hr); [left; right; assumption | right; assumption].
+    + split; [exact H1|]. split.
+      * intros r Hr. right. apply H2. exact Hr.
+      * intros r [Hr|Hr]; [subst; right; exact EP | apply H3; exact Hr].
+Qed.
+
+Lemma all_in_iff : forall rows have, all_in rows have = true <-> forall r, In r rows -> In r have.
+Proof.
+  intros rows have. unfold all_in. rewrite forallb_forall. split; intros H r Hr.
+  - apply zmem_In. apply H. exact Hr.
+  - apply zmem_In. apply H. exact Hr.
+Qed.
+
+Lemma none_in_iff : forall rows have, none_in rows have = true <-> forall r, In r rows -> ~ In r have.
+Proof.
+  intros rows have. unfold none_in. rewrite forallb_forall. split; intros H r Hr.
+  - apply zmem_false. apply negb_true_iff. apply H. exact Hr.
+  - apply negb_true_iff. apply zmem_false. apply H. exact Hr.
+Qed.
+
+Lemma apply_BulkUpdate_ok : forall s t T rows cols,
+  find_table O s t = Some T -> colvals_ok O rows cols = true -> rows <> [] ->
+  all_in rows (t_rows O T) = true ->
+  (forall c, In c (map fst cols) -> find_col O (t_cols O T) c <> None) ->
+  exists cs u, set_columns O (t_cols O T) rows cols = Ok cs /\
+               apply_doc O (BulkUpdateRecord O t rows cols) s =
+               Ok (put_table O s t (mkTab O (t_id O T) (t_rows O T) cs), (u, [])).
+Proof.
+  intros s t T rows cols Hf Hok Hne Hall Hcols.
+  destruct (proj2 (set_columns_ok_iff cols (t_cols O T) rows) Hcols) as [cs Hcs].
+  destruct (old_values_ok cols (t_cols O T) rows Hcols) as [ov Hov].
+  exists cs. eexists. split; [exact Hcs|].
+  unfold apply_doc. rewrite Hf, Hok. rewrite (match_nonnil _ _ _ true false Hne). cbn [negb orb].
+  rewrite Hall. cbn [negb]. rewrite Hov, Hcs. reflexivity.
+Qed.
+
+Lemma find_put_other : forall s t T' t0,
+  t0 <> t -> t_id O T' = t -> find_table O (put_table O s t T') t0 = find_table O s t0.
+Proof.
+  intros s t T' t0 Hne Hid. rewrite find_put_table by exact Hid.
+  assert (name_eqb t0 t = false) as -> by (apply name_eqb_neq; exact Hne). reflexivity.
+Qed.
+
+Lemma seq_ex_put_gen : forall X s s1 t T T1 T',
+  find_table O s t = Some T -> find_table O s1 t = Some T1 ->
+  (forall t0, t0 <> t -> find_table O s1 t0 = find_table O s t0) ->
+  t_id O T' = t -> tab_rel X t T' T -> seq_ex X (put_table O s1 t T') s.
+Proof.
+  intros X s s1 t T T1 T' Hf Hf1 Hoth Hid Hrel t0. rewrite find_put_table by exact Hid.
+  name_cases t0 t.
+  - subst t0. rewrite Hf1, Hf. exact Hrel.
+  - rewrite Hoth by assumption. destruct (find_table O s t0); cbn; [apply tab_rel_refl | exact I].
+Qed.
+
+Lemma undo_RemoveColumn : forall s t c, wf_state s -> undo_ok (RemoveColumn O t c) s.
+Proof.
+  intros s t c Hwf s' u ops H. unfold apply_doc in H.
+  destruct (find_table O s t) as [T|] eqn:Ef; [|discriminate].
+  destruct (find_col O (t_cols O T) c) as [C|] eqn:Ec; [|discriminate].
+  pose proof (find_table_id _ _ _ Ef) as Hid.
+  pose proof (Hwf _ _ Ef) as HwfT.
+  pose proof (wf_col_not_id _ _ _ HwfT Ec) as Hcid.
+  destruct HwfT as [Hnd [Hnoid Hnorm]].
+  set (P := fun rv : Z * V => negb (vstrict O (snd rv) (col_default O C))) in *.
+  destruct (filter_pairs (col_get O C) P (t_rows O T)) as [Hvals [Hsub Hcov]].
+  remember (filter P (map (fun r => (r, col_get O C r)) (t_rows O T))) as uv eqn:Euv.
+  set (T1 := mkTab O (t_id O T) (t_rows O T) (drop_col O (t_cols O T) c)) in *.
+  set (N := mkCol O c (c_info O C) []).
+  set (T2 := mkTab O (t_id O T) (t_rows O T) (drop_col O (t_cols O T) c ++ [N])).
+  assert (Hf1 : find_table O (put_table O s t T1) t = Some T1) by (eapply find_put_same; eassumption).
+  assert (Hadd : apply_doc O (AddColumn O t c (c_info O C)) (put_table O s t T1) =
+                 Ok (put_table O (put_table O s t T1) t T2, ([RemoveColumn O t c], [SRenameColumn O t None c]))).
+  { unfold apply_doc. rewrite Hf1.
+    assert (has_column O T1 c = false) as ->.
+    { apply has_column_false. split; [exact Hcid|]. unfold T1. cbn [t_cols]. rewrite find_drop_col, name_eqb_refl. reflexivity. }
+    reflexivity. }
+  assert (HfN : forall c0, find_col O (t_cols O T2) c0 =
+                           if name_eqb c0 c then Some N else find_col O (t_cols O T) c0).
+  { intro c0. unfold T2. cbn [t_cols]. rewrite find_app_col, find_drop_col. unfold N. cbn [c_id].
+    destruct (name_eqb c0 c); [reflexivity|]. destruct (find_col O (t_cols O T) c0); reflexivity. }
+  assert (Hdef : forall r, In r (t_rows O T) -> ~ In r (map fst uv) ->
+                 venc O (col_default O N) (col_get O C r) = true).
+  { intros r Hr Hnin. destruct (Hcov r Hr) as [Hin|HP]; [contradiction|].
+    unfold P in HP. cbn in HP. apply negb_false_iff in HP. apply (venc_sym L). apply (vstrict_enc L). exact HP. }
+  assert (Hrel2 : forall X : cellset, (forall r, In r (map fst uv) -> X t c r) -> tab_rel X t T2 T).
+  { intros X HX. split; [cbn; tauto|]. intro c0. rewrite HfN. cbn [t_rows T2].
+    name_cases c0 c.
+    - subst c0. rewrite Ec. cbn. split; [reflexivity|]. intros r Hr.
+      destruct (in_dec Z.eq_dec r (map fst uv)) as [Hin|Hnin]; [left; apply HX; exact Hin|].
+      right. apply Hdef; assumption.
+    - destruct (find_col O (t_cols O T) c0); cbn; [|exact I].
+      split; [reflexivity|]. intros r _. right. apply (venc_refl L). }
+  clear Euv.
+  destruct uv as [|rv0 uv0].
+  - (* nothing to restore *)
+    inversion H; subst s' u ops; clear H. cbn [rev app replay_doc]. rewrite Hadd. cbn [bind fst].
+    eexists. split; [reflexivity|].
+    eapply seq_ex_put2; try eassumption; try reflexivity. apply Hrel2. intros r [].
+  - remember (map fst (rv0 :: uv0)) as rows2 eqn:Er2.
+    remember (map snd (rv0 :: uv0)) as vals2 eqn:Ev2.
+    destruct (ci_isformula (c_info O C)) eqn:Eform.
+    + (* formula column: restored through the summary *)
+      inversion H; subst s' u ops; clear H. cbn [rev app replay_doc]. rewrite Hadd. cbn [bind fst].
+      eexists. split; [reflexivity|].
+      eapply seq_ex_put2; try eassumption; try reflexivity. apply Hrel2.
+      intros r _. cbn. split; [reflexivity|]. split; [reflexivity|]. exists T, C. auto.
+    + (* data column: BulkUpdateRecord after the AddColumn *)
+      inversion H; subst s' u ops; clear H. cbn [rev app replay_doc]. rewrite Hadd. cbn [bind fst].
+      assert (Hf2 : find_table O (put_table O (put_table O s t T1) t T2) t = Some T2)
+        by (eapply find_put_same; [exact Hf1 | exact Hid]).
+      assert (Hne : rows2 <> []) by (rewrite Er2; discriminate).
+      assert (Hlen : length vals2 = length rows2) by (rewrite Er2, Ev2, !map_length; reflexivity).
+      assert (Hok : colvals_ok O rows2 [(c, vals2)] = true).
+      { unfold colvals_ok. cbn [map fst snd nodup_names nmem forallb negb andb].
+        rewrite (proj2 (Nat.eqb_eq _ _) Hlen).
+        assert (name_eqb id_name c = false) as -> by (apply name_eqb_neq; congruence). reflexivity. }
+      destruct (apply_BulkUpdate_ok _ t T2 rows2 [(c, vals2)] Hf2 Hok Hne) as [cs [u' [Hcs Hstep]]].
+      { apply all_in_iff. intros r Hr. unfold T2. cbn [t_rows]. apply Hsub. exact Hr. }
+      { intros c0 [<-|[]]. rewrite HfN, name_eqb_refl. discriminate. }
+      rewrite Hstep. cbn [bind fst].
+      eexists. split; [reflexivity|].
+      assert (Hndc : nodup_names (map fst [(c, vals2)]) = true) by reflexivity.
+      destruct (set_columns_spec _ _ _ _ Hndc Hcs) as [_ Hspec].
+      eapply seq_ex_put_gen; [exact Ef | exact Hf2 | | exact Hid |].
+      { intros t0 Hne0. rewrite !find_put_other by (try exact Hne0; exact Hid). reflexivity. }
+      split; [cbn; tauto|]. intro c0. cbn [t_cols t_rows T2]. specialize (Hspec c0). rewrite HfN in Hspec.
+      name_cases c0 c.
+      * subst c0. rewrite Ec. destruct Hspec as [C' [Hf' [Hi' Hg']]]. rewrite Hf'. cbn.
+        split; [exact Hi'|]. intros r Hr. right. rewrite Hg'. unfold cell_after. cbn [cols_get N c_id c_info].
+        rewrite name_eqb_refl. rewrite Hvals. rewrite set_val_map.
+        destruct (zmem r rows2) eqn:Ez.
+        -- apply (Hnorm _ _ Ec). exact Hr.
+        -- apply Hdef; [exact Hr|]. apply zmem_false. exact Ez.
+      * destruct (find_col O (t_cols O T) c0) as [C0|] eqn:Ec0; [|rewrite Hspec; exact I].
+        destruct Hspec as [C' [Hf' [Hi' Hg']]]. rewrite Hf'. cbn.
+        split; [exact Hi'|]. intros r Hr. right. rewrite Hg'. unfold cell_after. cbn [cols_get].
+        rewrite (find_col_id _ _ _ Ec0), E. apply (venc_refl L).
+Qed.
+
+
+Lemma undo_ModifyColumn : forall s t c m, wf_state s -> undo_ok (ModifyColumn O t c m) s.
+Proof.
+  intros s t c m Hwf s' u ops H. unfold apply_doc in H.
+  destruct (find_table O s t) as [T|] eqn:Ef; [|discriminate].
+  destruct (find_col O (t_cols O T) c) as [C|] eqn:Ec; [|discriminate].
+  pose proof (find_table_id _ _ _ Ef) as Hid.
+  destruct (Hwf _ _ Ef) as [Hnd [Hnoid Hnorm]].
+  set (new := apply_modinfo m (c_info O C)) in *.
+  destruct (colinfo_eqb new (c_info O C)) eqn:Eeq.
+  - inversion H; subst s' u ops; clear H. cbn. eexists. split; [reflexivity|]. apply seq_ex_refl.
+  - inversion H; subst s' u ops; clear H. cbn [rev app replay_doc].
+    set (C1 := col_set_many O (mkCol O c new []) (t_rows O T) (map (col_get O C) (t_rows O T))).
+    set (T1 := mkTab O (t_id O T) (t_rows O T) (drop_col O (t_cols O T) c ++ [C1])).
+    assert (HidC1 : c_id O C1 = c) by (unfold C1; rewrite col_set_many_id; reflexivity).
+    assert (HinfC1 : c_info O C1 = new) by (unfold C1; rewrite col_set_many_info; reflexivity).
+    assert (Hf1 : find_table O (put_table O s t T1) t = Some T1) by (eapply find_put_same; eassumption).
+    assert (Hc1 : find_col O (t_cols O T1) c = Some C1).
+    { unfold T1. cbn [t_cols]. rewrite find_app_col, find_drop_col, name_eqb_refl, HidC1, name_eqb_refl. reflexivity. }
+    set (C2 := col_set_many O (mkCol O c (c_info O C) []) (t_rows O T) (map (col_get O C1) (t_rows O T))).
+    set (T2 := mkTab O (t_id O T) (t_rows O T) (drop_col O (t_cols O T1) c ++ [C2])).
+    assert (Hstep : apply_doc O (ModifyColumn O t c (undo_modinfo m (c_info O C))) (put_table O s t T1) =
+                    Ok (put_table O (put_table O s t T1) t T2, ([ModifyColumn O t c (undo_modinfo (undo_modinfo m (c_info O C)) (c_info O C1))], []))).
+    { unfold apply_doc. rewrite Hf1, Hc1. rewrite HinfC1.
+      pose proof (undo_modinfo_restores m (c_info O C)) as Hres. fold new in Hres. rewrite !Hres.
+      assert (colinfo_eqb (c_info O C) new = false) as ->.
+      { destruct (colinfo_eqb (c_info O C) new) eqn:E2; [|reflexivity].
+        apply colinfo_eqb_eq in E2. rewrite <- E2 in Eeq.
+        assert (colinfo_eqb (c_info O C) (c_info O C) = true) by (apply colinfo_eqb_eq; reflexivity). congruence. }
+      reflexivity. }
+    rewrite Hstep. cbn [bind fst].
+    eexists. split; [reflexivity|].
+    eapply seq_ex_put2; try eassumption; try reflexivity.
+    split; [cbn; tauto|]. intro c0. unfold T2, T1. cbn [t_cols t_rows].
+    rewrite find_app_col, find_drop_col, find_app_col, find_drop_col.
+    assert (c_id O C2 = c) as -> by (unfold C2; rewrite col_set_many_id; reflexivity).
+    rewrite HidC1.
+    name_cases c0 c.
+    + subst c0. rewrite Ec. cbn. split; [unfold C2; rewrite col_set_many_info; reflexivity|].
+      intros r Hr.
+      destruct (name_eq_dec (ci_type new) (ci_type (c_info O C))) as [Hty|Hty].
+      * right. unfold C2. rewrite col_get_set_many, set_val_map. rewrite (proj2 (zmem_In _ _) Hr). cbn [c_info].
+        unfold C1. rewrite col_get_set_many, set_val_map. rewrite (proj2 (zmem_In _ _) Hr). cbn [c_info].
+        rewrite Hty.
+        eapply (venc_trans L); [apply (vnorm_idem L)|]. apply (Hnorm _ _ Ec). exact Hr.
+      * left. cbn. split; [reflexivity|]. split; [reflexivity|]. exists T, C. auto.
+    + destruct (find_col O (t_cols O T) c0); cbn; [|exact I].
+      split; [reflexivity|]. intros r _. right. apply (venc_refl L).
+Qed.
+
+
+(* ------------------------------------------------------------------------------------------------ *)
+(* column dictionaries built from a table's columns (undo values) *)
+
+Definition subdict (p : column -> bool) (f : column -> list V) (cs : list column) : colvals O :=
+  flat_map (fun C => if p C then [] else [(c_id O C, f C)]) cs.
+
+Lemma subdict_keys : forall p f cs c, In c (map fst (subdict p f cs)) -> In c (map (c_id O) cs).
+Proof.
+  unfold subdict.
+  intros p f cs c. induction cs as [|C0 cs IH]; cbn; [tauto|].
+  destruct (p C0); cbn; [intro H; right; apply IH; exact H|].
+  intros [H|H]; [left; exact H | right; apply IH; exact H].
+Qed.
+
+Lemma subdict_nodup : forall p f cs,
+  nodup_names (map (c_id O) cs) = true -> nodup_names (map fst (subdict p f cs)) = true.
+Proof.
+  unfold subdict.
+  intros p f cs. induction cs as [|C0 cs IH]; cbn; [reflexivity|].
+  intro H. apply andb_true_iff in H. destruct H as [Hn Hnd].
+  destruct (p C0); cbn; [apply IH; exact Hnd|].
+  rewrite (IH Hnd). rewrite andb_true_r. apply negb_true_iff. apply negb_true_iff in Hn.
+  match goal with |- nmem ?a ?b = false => destruct (nmem a b) eqn:E; [|reflexivity] end.
+  apply nmem_In in E. apply (subdict_keys p f cs) in E. apply nmem_In in E. congruence.
+Qed.
+
+Lemma subdict_noid : forall p f cs,
+  nmem id_name (map (c_id O) cs) = false -> nmem id_name (map fst (subdict p f cs)) = false.
+Proof.
+  intros p f cs H. destruct (nmem id_name (map fst (subdict p f cs))) eqn:E; [|reflexivity].
+  apply nmem_In in E. apply subdict_keys in E. apply nmem_In in E. congruence.
+Qed.
+
+Lemma subdict_get : forall p f cs c,
+  nodup_names (map (c_id O) cs) = true ->
+  cols_get (subdict p f cs) c =
+  match find_col O cs c with
+  | Some C => if p C then None else Some (f C)
+  | None => None
+  end.
+Proof.
+  unfold subdict.
+  intros p f cs c. induction cs as [|C0 cs IH]; cbn; [reflexivity|].
+  intro H. apply andb_true_iff in H. destruct H as [Hn Hnd]. specialize (IH Hnd).
+  name_cases c (c_id O C0).
+  - subst c. destruct (p C0); cbn.
+    + rewrite IH. apply negb_true_iff in Hn.
+      destruct (find_col O cs (c_id O C0)) eqn:Ef; [|reflexivity].
+      exfalso. assert (nmem (c_id O C0) (map (c_id O) cs) = true); [|congruence].
+      apply nmem_In. rewrite <- (find_col_id _ _ _ Ef) at 1. apply in_map. eapply find_col_In. exact Ef.
+    + rewrite name_eqb_refl. reflexivity.
+  - destruct (p C0); cbn; [exact IH|]. rewrite E. exact IH.
+Qed.
+
+Lemma subdict_lengths : forall p f cs n,
+  (forall C, length (f C) = n) ->
+  forallb (fun kv : name * list V => Nat.eqb (length (snd kv)) n) (subdict p f cs) = true.
+Proof.
+  unfold subdict.
+  intros p f cs n Hl. induction cs as [|C0 cs IH]; cbn; [reflexivity|].
+  destruct (p C0); cbn; [exact IH|]. rewrite IH, andb_true_r. apply Nat.eqb_eq. apply Hl.
+Qed.
+
+Lemma subdict_ok : forall p f cs rows,
+  nodup_names (map (c_id O) cs) = true -> nmem id_name (map (c_id O) cs) = false ->
+  (forall C, length (f C) = length rows) ->
+  colvals_ok O rows (subdict p f cs) = true.
+Proof.
+  intros p f cs rows Hnd Hid Hl. unfold colvals_ok.
+  rewrite subdict_nodup by exact Hnd. rewrite subdict_lengths by exact Hl. rewrite subdict_noid by exact Hid. reflexivity.
+Qed.
+
+Lemma colvals_ok_parts : forall rows cols, colvals_ok O rows cols = true ->
+  nodup_names (map fst cols) = true /\
+  (forall c vs, cols_get cols c = Some vs -> length vs = length rows) /\
+  nmem id_name (map fst cols) = false.
+Proof.
+  intros rows cols H. unfold colvals_ok in H.
+  apply andb_true_iff in H. destruct H as [H H3]. apply andb_true_iff in H. destruct H as [H1 H2].
+  split; [exact H1|]. split; [|apply negb_true_iff; exact H3].
+  clear H1 H3. induction cols as [|[c0 v0] rest IH]; intros c vs Hg; cbn in *; [discriminate|].
+  apply andb_true_iff in H2. destruct H2 as [Hl H2].
+  destruct (name_eqb c c0); [inversion Hg; subst; apply Nat.eqb_eq; exact Hl | eapply IH; eassumption].
+Qed.
+
+Lemma filter_all : forall (A : Type) (f : A -> bool) l, (forall x, In x l -> f x = true) -> filter f l = l.
+Proof.
+  intros A f l. induction l as [|x l IH]; intro H; cbn; [reflexivity|].
+  rewrite (H x) by (left; reflexivity). rewrite IH; [reflexivity|]. intros y Hy. apply H. right. exact Hy.
+Qed.
+
+Lemma apply_BulkRemove_state : forall s t T rows,
+  find_table O s t = Some T -> (forall r, In r rows -> In r (t_rows O T)) -> rows <> [] ->
+  exists u ops, apply_doc O (BulkRemoveRecord O t rows) s =
+    Ok (put_table O s t (mkTab O (t_id O T) (filter (fun r => negb (zmem r rows)) (t_rows O T))
+                                (map (fun C => col_unset_many O C rows) (t_cols O T))), (u, ops)).
+Proof.
+  intros s t T rows Hf Hsub Hne. unfold apply_doc. rewrite Hf.
+  rewrite filter_all by (intros r Hr; apply zmem_In; apply Hsub; exact Hr).
+  destruct rows as [|r0 rows0]; [contradiction|]. eauto.
+Qed.
+
+Lemma undo_BulkAddRecord : forall s t rows cols, undo_ok (BulkAddRecord O t rows cols) s.
+Proof.
+  intros s t rows cols s' u ops H. unfold apply_doc in H.
+  destruct (find_table O s t) as [T|] eqn:Ef; [|discriminate].
+  destruct (colvals_ok O rows cols) eqn:Eok; cbn [negb orb] in H; [|discriminate].
+  destruct rows as [|r0 rows0] eqn:Erows; [discriminate|]. rewrite <- Erows in *.
+  assert (Hne : rows <> []) by (rewrite Erows; discriminate). clear Erows r0 rows0.
+  destruct (none_in rows (t_rows O T)) eqn:Enone; cbn [negb] in H; [|discriminate].
+  destruct (add_records O T rows cols) as [T'|] eqn:Eadd; cbn [bind] in H; [|discriminate].
+  inversion H; subst s' u ops; clear H. cbn [rev app replay_doc].
+  pose proof (find_table_id _ _ _ Ef) as Hid.
+  destruct (colvals_ok_parts _ _ Eok) as [Hndk _].
+  destruct (add_records_spec _ _ _ _ Hndk Eadd) as [Hid' [Hrows [_ Hcols]]].
+  assert (Hid1 : t_id O T' = t) by congruence.
+  assert (Hf1 : find_table O (put_table O s t T') t = Some T') by (eapply find_put_same; eassumption).
+  destruct (apply_BulkRemove_state _ _ _ rows Hf1) as [u' [ops' Hstep]]; [|exact Hne|].
+  { intros r Hr. apply Hrows. left. exact Hr. }
+  rewrite Hstep. cbn [bind fst].
+  eexists. split; [reflexivity|].
+  eapply seq_ex_put2; try eassumption.
+  pose proof (proj1 (none_in_iff _ _) Enone) as Hnone.
+  split.
+  - intro r. cbn [t_rows]. rewrite filter_In, Hrows, negb_true_iff, zmem_false. split.
+    + intros [[Hr|Hr] Hn]; [contradiction | exact Hr].
+    + intro Hr. split; [right; exact Hr|]. intro Hin. exact (Hnone r Hin Hr).
+  - intro c. cbn [t_cols t_rows]. rewrite find_map_col by (intro; apply col_unset_many_id).
+    specialize (Hcols c). destruct (find_col O (t_cols O T) c) as [C|] eqn:Ec.
+    + destruct Hcols as [C' [Hf' [Hi' Hg']]]. rewrite Hf'. cbn. split; [rewrite col_unset_many_info; exact Hi'|].
+      intros r Hr. right. apply filter_In in Hr. destruct Hr as [_ Hr]. apply negb_true_iff in Hr.
+      rewrite col_get_unset_many, Hr. rewrite Hg'. unfold cell_after, add_base. rewrite Hr.
+      destruct (cols_get cols (c_id O C)); [|apply (venc_refl L)].
+      rewrite set_val_notin by (apply zmem_false; exact Hr). apply (venc_refl L).
+    + rewrite Hcols. exact I.
+Qed.
+
+
+Lemma apply_BulkAdd_ok : forall s t T rows cols,
+  find_table O s t = Some T -> colvals_ok O rows cols = true -> rows <> [] ->
+  none_in rows (t_rows O T) = true ->
+  (forall c, In c (map fst cols) -> find_col O (t_cols O T) c <> None) ->
+  exists T', add_records O T rows cols = Ok T' /\
+             apply_doc O (BulkAddRecord O t rows cols) s =
+             Ok (put_table O s t T', ([BulkRemoveRecord O t rows], [SAddRecords O t rows])).
+Proof.
+  intros s t T rows cols Hf Hok Hne Hnone Hcols.
+  destruct (proj2 (add_records_ok_iff T rows cols) Hcols) as [T' HT'].
+  exists T'. split; [exact HT'|].
+  unfold apply_doc. rewrite Hf, Hok. rewrite (match_nonnil _ _ _ true false Hne). cbn [negb orb].
+  rewrite Hnone. cbn [negb]. rewrite HT'. reflexivity.
+Qed.
+
+Lemma is_all_default_spec : forall C vals,
+  is_all_default O C vals = true -> forall v, In v vals -> venc O v (col_default O C) = true.
+Proof.
+  intros C vals H v Hv. unfold is_all_default in H. rewrite forallb_forall in H.
+  apply (vstrict_enc L). apply H. exact Hv.
+Qed.
+
+Lemma col_unset_many_default : forall C rows, col_default O (col_unset_many O C rows) = col_default O C.
+Proof. intros C rows. unfold col_default. rewrite col_unset_many_info. reflexivity. Qed.
+
+Lemma undo_BulkRemoveRecord : forall s t rows, wf_state s -> undo_ok (BulkRemoveRecord O t rows) s.
+Proof.
+  intros s t rows Hwf s' u ops H. unfold apply_doc in H.
+  destruct (find_table O s t) as [T|] eqn:Ef; [|discriminate].
+  pose proof (find_table_id _ _ _ Ef) as Hid.
+  destruct (Hwf _ _ Ef) as [Hnd [Hnoid Hnorm]].
+  remember (filter (fun r => zmem r (t_rows O T)) rows) as rows1 eqn:Er1.
+  assert (Hsub : forall r, In r rows1 -> In r (t_rows O T)).
+  { intros r Hr. rewrite Er1 in Hr. apply filter_In in Hr. apply zmem_In. apply Hr. }
+  clear Er1.
+  destruct (list_eq_dec Z.eq_dec rows1 []) as [Hnil|Hne].
+  - subst rows1. inversion H; subst s' u ops; clear H. cbn. eexists. split; [reflexivity|]. apply seq_ex_refl.
+  - rewrite (match_nonnil _ _ rows1 _ _ Hne) in H.
+    set (p := fun C => is_all_default O C (map (col_get O C) rows1)) in *.
+    set (f := fun C => map (col_get O C) rows1) in *.
+    change (flat_map _ (t_cols O T)) with (subdict p f (t_cols O T)) in H.
+    set (T1 := mkTab O (t_id O T) (filter (fun r => negb (zmem r rows1)) (t_rows O T))
+                     (map (fun C => col_unset_many O C rows1) (t_cols O T))) in *.
+    inversion H; subst s' u ops; clear H. cbn [rev app replay_doc].
+    assert (Hf1 : find_table O (put_table O s t T1) t = Some T1) by (eapply find_put_same; eassumption).
+    assert (Hok : colvals_ok O rows1 (subdict p f (t_cols O T)) = true).
+    { apply subdict_ok; try assumption. intro C. apply map_length. }
+    destruct (apply_BulkAdd_ok _ t T1 rows1 (subdict p f (t_cols O T)) Hf1 Hok Hne) as [T2 [Hadd Hstep]].
+    { apply none_in_iff. intros r Hr Hin. unfold T1 in Hin. cbn [t_rows] in Hin. apply filter_In in Hin.
+      destruct Hin as [_ Hin]. apply negb_true_iff in Hin. apply zmem_false in Hin. contradiction. }
+    { intros c Hc. apply subdict_keys in Hc. unfold T1. cbn [t_cols].
+      intro Hn. apply find_map_col_none in Hn; [|intro; apply col_unset_many_id].
+      apply find_col_none_notin in Hn. contradiction. }
+    rewrite Hstep. cbn [bind fst].
+    eexists. split; [reflexivity|].
+    destruct (add_records_spec _ _ _ _ (subdict_nodup p f _ Hnd) Hadd) as [Hid2 [Hrows [_ Hcols]]].
+    eapply seq_ex_put2; try eassumption; [unfold T1 in Hid2; cbn in Hid2; congruence|].
+    split.
+    + intro r. rewrite Hrows. unfold T1. cbn [t_rows]. rewrite filter_In, negb_true_iff, zmem_false.
+      destruct (in_dec Z.eq_dec r rows1) as [Hin|Hnin]; [|tauto].
+      pose proof (Hsub r Hin). tauto.
+    + intro c. specialize (Hcols c). unfold T1 in Hcols. cbn [t_cols] in Hcols.
+      rewrite find_map_col in Hcols by (intro; apply col_unset_many_id).
+      destruct (find_col O (t_cols O T) c) as [C|] eqn:Ec; cbn [option_map] in Hcols; [|rewrite Hcols; exact I].
+      destruct Hcols as [C' [Hf' [Hi' Hg']]]. rewrite Hf'. cbn.
+      split; [rewrite Hi'; apply col_unset_many_info|].
+      intros r Hr. right. apply Hrows in Hr.
+      assert (HrT : In r (t_rows O T)).
+      { destruct Hr as [Hr|Hr]; [apply Hsub; exact Hr|]. unfold T1 in Hr. cbn in Hr. apply filter_In in Hr. apply Hr. }
+      rewrite Hg'. unfold cell_after, add_base. rewrite col_unset_many_id, col_unset_many_info.
+      rewrite subdict_get by exact Hnd. rewrite (find_col_id _ _ _ Ec), Ec.
+      rewrite col_get_unset_many. rewrite col_unset_many_default.
+      destruct (p C) eqn:Ep.
+      * destruct (zmem r rows1) eqn:Ez; [|apply (venc_refl L)].
+        eapply (venc_trans L); [unfold col_default; apply (vnorm_default L)|]. apply (venc_sym L).
+        apply (is_all_default_spec C _ Ep). apply in_map. apply zmem_In. exact Ez.
+      * unfold f. rewrite set_val_map. destruct (zmem r rows1) eqn:Ez; [|apply (venc_refl L)].
+        apply (Hnorm _ _ Ec). exact HrT.
+Qed.
+
 End Proofs.
